@@ -33,10 +33,11 @@ const (
 	OpGet                       // Get(key K) on tree A (a transition when a cache is attached)
 	OpIter                      // full Iter on tree A
 	OpDrop                      // forget tree A
+	OpFlushCache                // the shared node cache loses all its entries (restart / eviction)
 )
 
 var opNames = map[OpKind]string{OpIns: "ins", OpDel: "del", OpPersist: "persist", OpReload: "reload", OpReloadJSON: "reloadjson",
-	OpKeep: "keep", OpLoad: "load", OpLoadNoCache: "loadnc", OpClone: "clone", OpCursor: "cursor", OpGet: "get", OpIter: "iter", OpDrop: "drop"}
+	OpKeep: "keep", OpLoad: "load", OpLoadNoCache: "loadnc", OpClone: "clone", OpCursor: "cursor", OpGet: "get", OpIter: "iter", OpDrop: "drop", OpFlushCache: "flushcache"}
 
 // Op is one transition. K and V index Config.Keys (K may point past it into Probes) and Config.Vals.
 type Op struct {
@@ -181,7 +182,7 @@ type World struct {
 	Msh    *env.Counter // counts Marshal calls (always wrapped)
 
 	Trees   []*mast.Mast
-	Model   []map[int]int // reference map per slot (nil when slot unused)
+	Model   []map[int]int  // reference map per slot (nil when slot unused)
 	Mod     []map[int]bool // keys touched by successful mutations since Base
 	HChg    []bool         // the height changed at some point since Base
 	Base    []Base
@@ -190,7 +191,7 @@ type World struct {
 	Cursors []*mast.Cursor
 	CursorC []Contents // contents of the tree when the cursor was opened
 
-	LastC   []Contents // scratch for monitors: contents of each slot as last read
+	LastC []Contents // scratch for monitors: contents of each slot as last read
 
 	Reduced bool // reduced state key
 	NoLog   bool
@@ -333,7 +334,7 @@ func (w *World) ReadContents(m *mast.Mast) (c Contents) {
 }
 
 // NewValPtr / DerefVal are exported for checks that call Get themselves.
-func NewValPtr(c *Config) interface{} { return newValPtr(c) }
+func NewValPtr(c *Config) interface{}    { return newValPtr(c) }
 func DerefVal(p interface{}) interface{} { return reflect.ValueOf(p).Elem().Interface() }
 
 func newValPtr(c *Config) interface{} {
@@ -379,6 +380,8 @@ func (w *World) Enabled(op Op) bool {
 		return w.Trees[op.A] != nil && op.A != op.B
 	case OpDrop:
 		return w.Trees[op.A] != nil && op.A != 0
+	case OpFlushCache:
+		return w.Cache != nil
 	}
 	if w.Trees[op.A] == nil {
 		return false
@@ -555,6 +558,9 @@ func (w *World) apply(op Op) Res {
 		w.Cursors[0] = c
 		w.CursorC[0] = w.ReadContents(m)
 		return r
+	case OpFlushCache:
+		w.Cache.Clear()
+		return Res{}
 	case OpDrop:
 		w.Trees[op.A] = nil
 		w.Model[op.A] = nil
